@@ -52,16 +52,38 @@ def jobs(tier):
     return js
 
 
+_FLAGS = {}
+
+
+def _flags(cls):
+    """names of the instance attributes that record 'started' and 'finished', found by watching which boolean attribute
+    turns True in a concrete start() / finish() on a toy group (the names are private to the implementation and may be
+    renamed by a refactoring; the property only speaks about the calls)"""
+    if cls in _FLAGS:
+        return _FLAGS[cls]
+    G, P, S = loader.MODS["groups"], loader.MODS["params"], loader.MODS["spake2"]
+    K = {"A": S.SPAKE2_A, "B": S.SPAKE2_B, "S": S.SPAKE2_Symmetric}
+    params = P._Params(G.IntegerGroup(p=23, q=11, g=2))
+    mk = lambda c, x: K[c](b"pw", params=params, entropy_f=lambda n, x=x: x.to_bytes(n, "big"))
+    inst, peer = mk(cls, 2), mk(PEER[cls], 7)
+    bools = lambda o: {k: v for k, v in vars(o).items() if isinstance(v, bool)}
+    d0 = bools(inst)
+    inst.start()
+    d1 = bools(inst)
+    started = [k for k in d1 if d1[k] is True and d0.get(k) is not True]
+    try:
+        inst.finish(peer.start())
+    except Exception:
+        pass
+    d2 = bools(inst)
+    finished = [k for k in d2 if d2[k] is True and d1.get(k) is not True]
+    _FLAGS[cls] = (started[0] if len(started) == 1 else None, finished[0] if len(finished) == 1 else None)
+    return _FLAGS[cls]
+
+
 def _state(inst):
     """observable + internal state as terms/objects for comparison"""
-    d = dict(inst.__dict__)
-    for flag in ("_started", "_finished"):          # the flags may be properties: observe them through the attribute
-        if flag not in d:
-            try:
-                d[flag] = getattr(inst, flag)
-            except Exception:
-                pass
-    return d
+    return dict(inst.__dict__)
 
 
 def _same(a, b):
@@ -95,6 +117,14 @@ def job_step(J, qn, cls, mode, op, lens=(1, 1, 0)):
     S = loader.MODS["spake2"]
     J.bounds.update(q=qn, cls=cls, pre_state=mode, op=op, lens=lens)
 
+    F_started, F_finished = _flags(cls)
+    if F_started is None or F_finished is None:
+        # no pair of boolean flags to make symbolic: the inductive step cannot be set up on this tree; the bounded
+        # histories jobs still run, but the claim "for histories of any length" is then undecided
+        J.obligations.append(dict(name="the implementation records started/finished in two boolean attributes (needed to "
+                                       "inject an arbitrary pre-state)", verdict="unknown", secs=0.0))
+        return
+
     def h(ctx):
         setup_hash_axioms(ctx)
         params = abstract_params(q, rejects_identity=(qn == "L"))
@@ -108,8 +138,8 @@ def job_step(J, qn, cls, mode, op, lens=(1, 1, 0)):
         if mode == "restored":
             inst = restore(cls, inst, params)
         fin = SymBool(ctx.fresh_bool("finished"))
-        real_started = inst._started
-        inst._finished = fin
+        real_started = getattr(inst, F_started)
+        setattr(inst, F_finished, fin)
         calls_before = len(ent.calls)
         pre = _state(inst)
         w = dict(inst=inst, pre=pre, fin=fin, ent=ent, own=own, started=real_started, pw=pw, idA=idA)
@@ -149,7 +179,7 @@ def job_step(J, qn, cls, mode, op, lens=(1, 1, 0)):
             else:
                 J.claim(r, "start() from not-started returns a message (%s)" % kind, kind == "ret", cex=cex, oracle="step")
                 J.claim(r, "start() sets started, keeps finished, draws entropy once",
-                        z3.And(B(post.get("_started", False)), B(post["_finished"]) == fin, w["draws"] == 1),
+                        z3.And(B(post.get(F_started, False)), B(post[F_finished]) == fin, w["draws"] == 1),
                         cex=cex, oracle="step")
         elif op == "serialize":
             if not started:
@@ -175,10 +205,10 @@ def job_step(J, qn, cls, mode, op, lens=(1, 1, 0)):
             else:
                 J.claim(r, "finish() from finished raises OnlyCallFinishOnce, not %s" % kind, z3.Not(fin), cex=cex,
                         oracle="step")
-                J.claim(r, "finish() sets finished before anything can raise (%s)" % kind, B(post["_finished"]),
+                J.claim(r, "finish() sets finished before anything can raise (%s)" % kind, B(post[F_finished]),
                         cex=cex, oracle="step")
                 J.claim(r, "finish() never alters started / xy_scalar",
-                        _unchanged(pre, post, skip=("_finished", "inbound_message")), cex=cex, oracle="step")
+                        _unchanged(pre, post, skip=(F_finished, "inbound_message")), cex=cex, oracle="step")
                 if kind == "ret":
                     J.claim(r, "a key is returned only by a started instance", started, cex=cex, oracle="step")
 
